@@ -15,6 +15,11 @@ def check_line_number(chk, T, only_panics=False):
     offset at which a token can start (first byte of a non-newline character)"""
     e = chk.engine()
     fn = e.func('get_line_number')
+    if not chk.native.available('line') or [t for _, t in fn.params] != ['usize', '&str']:
+        # the helper no longer has the shape (byte offset, text) -> line: this unit-level harness does not apply to it; the end-to-end
+        # part (native layouts through analyze_for_*) still decides the property on the compiled code
+        chk.undecide('get_line_number has the signature %r: the unit-level harness (offset, text) is not applicable' % ([t for _, t in fn.params],))
+        return
     widths = [z3.BitVec('w%d' % i, 64) for i in range(T)]
     pre = [z3.And(z3.UGE(w, 1), z3.ULE(w, 4)) for w in widths]
     off = z3.BitVec('off', 64)
@@ -172,9 +177,12 @@ def check_analyze(chk, category, nlocs):
         return nloc_choice
 
     def stub_ln(en, args, fr, callee):
+        a0 = en.force(args[0])
+        if not isinstance(a0, Int) or len(args) != 2:
+            raise Unsupported('get_line_number is no longer (byte offset, text) -> line: the stub of this harness does not apply')
         if en.load(args[1]) is not text:
             en.extra['wrong_text'] = True
-        return Int(LN(en.force(args[0]).z()), 'i32')
+        return Int(LN(a0.z()), 'i32')
 
     e.stubs['parse'] = stub_parse
     e.stubs['get_line_number'] = stub_ln
